@@ -347,6 +347,7 @@ class Engine:
     def oblige(self, st, name, kind, goal, node=None, hints=None, info=None):
         if isinstance(goal, bool):
             goal = z3.BoolVal(goal)
+        name = name + getattr(self, 'name_suffix', '')
         self.obls.append(Obligation(name, kind, st.pc, goal,
                                     getattr(node, 'lineno', None), hints, info))
 
@@ -1190,6 +1191,10 @@ class Engine:
             return [(st, vstr(a.py + b.py))]
         if isinstance(op, ast.Mod) and a.k == 'str':
             return [(st, V('str', z=self.fresh('fmt', z3.StringSort())))]
+        if (a.k == 'none' and b.k in ('int', 'real', 'bool', 'none')) or \
+                (b.k == 'none' and a.k in ('int', 'real', 'bool')):
+            # None has no arithmetic with numbers (or None) in Python: TypeError
+            return [(st, Raised(self.make_exc('TypeError', node=node)))]
         raise Unsupported(node, 'binop %s on %r, %r' % (type(op).__name__, a, b))
 
     def num_binop(self, op, a, b, st, node):
